@@ -23,6 +23,17 @@ UFUNC = {"numpy.add": "Add", "numpy.subtract": "Sub", "numpy.multiply": "Mult", 
 NOT_NONE_TAGS = ("ref", "dref", "tuple", "list", "fn", "ext", "mod", "rmod", "pool", "results", "bin", "cmp", "dictc", "lv", "alloc", "fstr", "iterd")
 
 
+def carries_fn(v):
+    """a function / pool / result iterator as a value (possibly inside a literal tuple or a merged value), not as the head of a call term"""
+    if is_tag(v, "fn", "pool", "poolattr", "results"):
+        return True
+    if is_tag(v, "tuple", "list"):
+        return any(carries_fn(x) for x in v[1:])
+    if is_tag(v, "phi"):
+        return carries_fn(v[2]) or carries_fn(v[3])
+    return False
+
+
 class _Return(Exception):
     def __init__(self, value):
         self.value = value
@@ -201,12 +212,17 @@ class Sim:
         _, oid, shape, sel = ref
         obj = self.heap[oid]
         if obj.kind == "dict":
-            return ("dict", tuple(sorted(((k, self.snap(v)) for k, v in obj.entries.items()), key=repr)))
+            return ("dict", tuple(sorted(((k, self.snap(v, record)) for k, v in obj.entries.items()), key=repr)))
         if record:
             self.reads.append(Read(oid=oid, shape=shape, sel=sel, frames=tuple(f.fid for f in self.frames), ctx=self.ctx, node=self.cur_node,
                                    seq=self.tick()))
         evs = obj.events
         cur = {f.fid for f in self.frames}
+        if shape is None and obj.kind == "raw" and sel == ():
+            shapes = {e.shape for e in evs if e.kind == "store"}
+            if len(shapes) == 1 and None not in shapes:
+                # the buffer itself (handed around as a (buffer, shape) pair): its content is what the one shaped view of it holds
+                return ("buffer", self.content(("ref", oid, next(iter(shapes)), ()), record))
 
         def upto(k, sel):
             while k > 0:
@@ -583,7 +599,7 @@ class Sim:
                 a, b = self.ev(node.body, fr), self.ev(node.orelse, fr)
                 if a == b:
                     return a
-                if not any(is_tag(x, "fn", "pool", "poolattr", "results") for x in list(subterms(a)) + list(subterms(b))):
+                if not carries_fn(a) and not carries_fn(b):
                     return ("phi", c, a, b)
                 return a if self.decide_term(c) else b
             return self.ev(node.body if self.decide(node.test, fr) else node.orelse, fr)
@@ -674,7 +690,7 @@ class Sim:
             return self.call_ext(f[1], args, kws, node)
         if is_tag(f, "poolattr"):
             return self.call_method(("pool", f[1]), f[2], args, kws, node)
-        if is_tag(f, "phi") and any(is_tag(x, "fn", "poolattr", "pool") for x in subterms(f)):
+        if is_tag(f, "phi") and carries_fn(f):
             raise Unsup("call of a function chosen by an undecided test")
         # a callable value that comes from outside (user-supplied peak / rolloff, coefficient function picked from a table): assumed pure
         return self.fresh(self._callterm(self.snap(f), args, kws))
@@ -686,7 +702,7 @@ class Sim:
         if self.frames or self.ctx[0] != "parent":
             return True
         for a in list(args) + list(kws.values()):
-            if any(is_tag(x, "fn", "pool", "results") for x in subterms(a)):
+            if carries_fn(a):
                 return True
         return False
 
@@ -1034,7 +1050,7 @@ class Sim:
 
         def ok_expr(e):
             for n in ast.walk(e):
-                if isinstance(n, (ast.IfExp, ast.NamedExpr, ast.Lambda, ast.GeneratorExp, ast.ListComp, ast.Dict, ast.Await, ast.Yield)):
+                if isinstance(n, (ast.IfExp, ast.NamedExpr, ast.Lambda, ast.GeneratorExp, ast.ListComp, ast.Await, ast.Yield)):
                     return False
                 if isinstance(n, ast.Call):
                     fx = n.func
@@ -1053,8 +1069,7 @@ class Sim:
                             return False
                         if callee[1] in self.world.mods[callee[0]].funcs and self.world.summary(*callee) & {"global", "mutates", "mp", "calls_param"}:
                             return False
-                    if isinstance(fx, ast.Name) and fx.id in fr.local_names and \
-                            any(is_tag(x, "fn", "pool", "poolattr", "results") for x in subterms(fr.locals.get(fx.id, ()))):
+                    if isinstance(fx, ast.Name) and fx.id in fr.local_names and carries_fn(fr.locals.get(fx.id, ())):
                         return False
             return True
 
